@@ -10,7 +10,8 @@ class C08(Prop):
     design_ref = "DESIGN.md §7 C08"
     models = [ModelRun("apply", apply_gen.gen_install, lambda c: any(o.startswith("install") for o in c.ops) and "dumpn" in c.ops,
                        spec_needs_impl=True, jobs=8, shrinkable=True,
-                       regions={"install.before_restart": apply_gen.region_install_before_restart},
+                       regions={"install.before_restart": apply_gen.region_install_before_restart,
+                                "namespace.upgrade_of_weak_entry": apply_gen.region_ns_upgrade},
                        search=lambda rng, b: apply_gen.gen_install(rng, "thorough")[:b], rule=(
         "complete nodes as child processes (see C07); node N receives nothing until the leader's current snapshot file is "
         "installed on it through its RaftStorage exactly as async-raft does (create_snapshot, the bytes, "
